@@ -402,3 +402,215 @@ mutant('C16-R4-poll-capacity-zero', ['C16'], ['C16.R4|nonzero'],
         }
 
         Poll::Ready(Some(Ok(capacity)))''', '''        Poll::Ready(Some(Ok(capacity)))''')])
+
+# ---------------------------------------------------------------- C05
+mutant('C05-R3-pop-frame-skips-transition-after', ['C05', 'C19'], ['C05.R3|site|proto::streams::prioritize::Prioritize::pop_frame'],
+       'pop_frame returns the popped frame without transition_after: a stream whose last frame was sent is never released',
+       [(S + 'prioritize.rs', '''                    counts.transition_after(stream, is_pending_reset);
+
+                    return Some(frame);''', '''                    let _ = is_pending_reset;
+                    return Some(frame);''')])
+mutant('C05-R3-clear-pending-open-skips-transition', ['C05'], ['C05.R3|site|proto::streams::prioritize::Prioritize::clear_pending_open'],
+       'clear_pending_open pops streams at EOF without transition_after',
+       [(S + 'prioritize.rs', '''        while let Some(stream) = self.pending_open.pop(store) {
+            let is_pending_reset = stream.is_pending_reset_expiration();
+            counts.transition_after(stream, is_pending_reset);
+        }''', '''        while let Some(stream) = self.pending_open.pop(store) {
+            let _ = (&stream, &counts);
+        }''')])
+mutant('C05-R2-double-count-on-interim', ['C05'], ['C05.R2|recv_headers|not-yet-counted'],
+       'a pushed stream is counted again for every interim response (0.4.16 fix reverted)',
+       [(S + 'recv.rs', '''        if is_initial && !stream.is_counted {''', '''        if is_initial {''')])
+mutant('C05-R4-over-limit-stream-accepted', ['C05', 'C18'], ['R4|open|some-guarded', 'C18.R3|open'],
+       'Recv::open returns Some(id) although the concurrency limit is reached (refusal recorded but stream still created)',
+       [(S + 'recv.rs', '''            self.refused = Some(id);
+            return Ok(None);''', '''            self.refused = Some(id);''')])
+
+# ---------------------------------------------------------------- C04 / C09
+mutant('C04-R1-headers-after-final-response', ['C04'], ['C04.R1|send_open'],
+       'State::send_open accepts a second HEADERS on an open stream whose response head was already sent',
+       [(S + 'state.rs', '''            Open {
+                local: AwaitingHeaders,
+                remote,
+            } => {
+                if eos {
+                    HalfClosedLocal(remote)''', '''            Open { remote, .. } => {
+                if eos {
+                    HalfClosedLocal(remote)''')])
+mutant('C04-R4-reset-drops-unsent-headers', ['C04', 'C17'], ['C04.R4|clear_queue|guard'],
+       'send_reset clears the queue of a stream whose HEADERS are still unsent: RST_STREAM on an idle stream (0.4.15)',
+       [(S + 'send.rs', '''        if !stream.is_pending_open {
+            // Otherwise, drop any buffered DATA/HEADERS and only send the
+            // reset.''', '''        {
+            // Otherwise, drop any buffered DATA/HEADERS and only send the
+            // reset.''')])
+mutant('C04-R2-stream-id-step', ['C04'], ['C04.R2|next_id|value'],
+       'StreamId::next_id returns an id of the wrong parity',
+       [('src/frame/stream_id.rs', '''            Ok(StreamId(next))''', '''            Ok(StreamId(next - 1))''')])
+mutant('C09-R1-recv-close-from-reserved', ['C09'], ['C09.R1|recv_close'],
+       'State::recv_close accepts END_STREAM in half-closed(remote)',
+       [(S + 'state.rs', '''            HalfClosedLocal(..) => {
+                tracing::trace!("recv_close: HalfClosedLocal => Closed");''', '''            HalfClosedLocal(..) | HalfClosedRemote(..) => {
+                tracing::trace!("recv_close: HalfClosedLocal => Closed");''')])
+mutant('C09-R2-malformed-becomes-conn-error', ['C09', 'C13'], ['C09.R2|malformed'],
+       'a malformed CONTINUATION header block tears down the connection instead of the stream',
+       [('src/codec/framed_read.rs', '''                    proto_err!(stream: "malformed CONTINUATION frame; stream={:?}", id);
+                    return Err(Error::library_reset(id, Reason::PROTOCOL_ERROR));''', '''                    proto_err!(stream: "malformed CONTINUATION frame; stream={:?}", id);
+                    return Err(Error::library_go_away(Reason::PROTOCOL_ERROR));''')])
+mutant('C09-R3-ping-on-stream-accepted', ['C09'], ['C09.R3|polarity|Ping'],
+       'PING on a non-zero stream is accepted',
+       [('src/frame/ping.rs', '''        if !head.stream_id().is_zero() {
+            return Err(Error::InvalidStreamId);
+        }
+''', '''''')])
+mutant('C09-R5-unknown-setting-rejected', ['C09'], ['C09.R5|unknown-setting'],
+       'an unknown SETTINGS identifier is a connection error instead of being ignored',
+       [('src/frame/settings.rs', '''                None => {}
+            }
+        }''', '''                None => return Err(Error::InvalidSettingValue),
+            }
+        }''')])
+mutant('C09-R4-reset-on-pending-open-tolerated', ['C09'], ['C09.R4|pending-open-is-idle|recv_reset'],
+       'RST_STREAM for a stream whose HEADERS are still unsent is processed instead of being a connection error (0.4.15)',
+       [(S + 'streams.rs', '''        if stream.is_pending_open {
+            proto_err!(conn: "recv_reset: received frame on idle stream {:?}", id);
+            return Err(Error::library_go_away(Reason::PROTOCOL_ERROR));
+        }
+''', '''''')])
+
+# ---------------------------------------------------------------- C13
+mutant('C13-R2-send-filter-misses-upgrade', ['C13'], ['C13.R2|send|names'],
+       'the send-side filter no longer refuses the upgrade header',
+       [(S + 'send.rs', '''            || fields.contains_key(http::header::UPGRADE)
+''', '''''')])
+mutant('C13-R4-content-length-padded', ['C13'], ['C13.R4|data|amount'],
+       'content-length is decremented by the padded length',
+       [(S + 'recv.rs', '''        if stream.dec_content_length(frame.payload().len()).is_err() {''', '''        if stream.dec_content_length(frame.flow_controlled_len()).is_err() {''')])
+mutant('C13-R4-short-body-accepted', ['C13'], ['C13.R4|data|eos-zero'],
+       'a body ending short of its content-length is reported as a clean end',
+       [(S + 'recv.rs', '''            if stream.ensure_content_length_zero().is_err() {
+                proto_err!(stream:
+                    "recv_data: content-length underflow; stream={:?}; len={:?}",
+                    stream.id,
+                    frame.payload().len(),
+                );
+                return Err(Error::library_reset(stream.id, Reason::PROTOCOL_ERROR));
+            }
+''', '''''')])
+mutant('C13-R5-repeated-pseudo-accepted', ['C13'], ['C13.R5|load|repeat'],
+       'a repeated pseudo-header field overwrites the first instead of being malformed',
+       [('src/frame/headers.rs', '''                } else if self.pseudo.$field.is_some() {
+                    tracing::trace!("load_hpack; header malformed -- repeated pseudo");
+                    malformed = true;
+                } else {''', '''                } else {''')])
+mutant('C13-R1-status-in-request-accepted', ['C13'], ['C13.R1|request'],
+       'a request carrying :status is delivered',
+       [('src/server.rs', '''        if pseudo.status.is_some() {
+            malformed!("malformed headers: :status field on request");
+        }
+''', '''''')])
+
+# ---------------------------------------------------------------- C15 / C17 / C18 / C19 / C01
+mutant('C15-R1-goaway-wrong-id', ['C15'], ['C15.R1|id|'],
+       'go_away_now advertises StreamId::MAX instead of the last processed id (streams the peer thinks were processed are dropped)',
+       [('src/proto/connection.rs', '''    fn go_away_now(&mut self, e: Reason) {
+        let last_processed_id = self.streams.last_processed_id();''', '''    fn go_away_now(&mut self, e: Reason) {
+        let last_processed_id = self.streams.last_processed_id().next_id().unwrap_or(StreamId::MAX);''')])
+mutant('C15-R2-goaway-fails-remote-streams', ['C15'], ['C15.R2|only-local-above'],
+       'a received GOAWAY also fails peer-initiated streams above the id (0.4.14 fix reverted)',
+       [(S + 'streams.rs', '''            if stream.id > last_stream_id && peer.is_local_init(stream.id) {''', '''            if stream.id > last_stream_id {''')])
+mutant('C15-R3-headers-after-goaway-processed', ['C15'], ['C15.R3|cutoff|recv_headers'],
+       'HEADERS above the GOAWAY cut-off are processed',
+       [(S + 'streams.rs', '''        if id > self.actions.recv.max_stream_id() {
+            tracing::trace!(
+                "id ({:?}) > max_stream_id ({:?}), ignoring HEADERS",
+                id,
+                self.actions.recv.max_stream_id()
+            );
+            return Ok(());
+        }
+''', '''''')])
+mutant('C15-R5-our-reason-preferred', ['C15'], ['C15.R5'],
+       'the connection result reports Ok although the peer sent an error GOAWAY',
+       [('src/proto/connection.rs', '''            (Reason::NO_ERROR, Reason::NO_ERROR) => Ok(()),''', '''            (Reason::NO_ERROR, _) => Ok(()),''')])
+mutant('C17-R2-drop-sends-no-error', ['C17'], ['C17.R2|maybe_cancel|no_error-guard'],
+       'a dropped client stream is reset with NO_ERROR instead of CANCEL',
+       [(S + 'streams.rs', '''        let reason = if counts.peer().is_server()
+            && stream.state.is_send_closed()
+            && stream.state.is_recv_streaming()''', '''        let reason = if stream.state.is_send_closed()
+            && stream.state.is_recv_streaming()''')])
+mutant('C17-R3-no-error-reset-discards-data', ['C17'], ['C17.R3|discard|not-no_error'],
+       'a NO_ERROR scheduled reset discards the queued response body',
+       [(S + 'prioritize.rs', '''                                if reason != Reason::NO_ERROR {
+                                    stream.pending_send.push_front(buffer, frame.into());''', '''                                if reason != Reason::CANCEL || true {
+                                    stream.pending_send.push_front(buffer, frame.into());''')])
+mutant('C17-R1-double-reset', ['C17'], ['C17.R1|site|send_reset'],
+       'send_reset no longer checks is_reset: a second explicit reset emits a second RST_STREAM',
+       [(S + 'send.rs', '''        if is_reset {
+            // Don't double reset
+            tracing::trace!(
+                " -> not sending RST_STREAM ({:?} is already reset)",
+                stream_id
+            );
+            return;
+        }
+''', '''''')])
+mutant('C18-R1-remote-reset-limit-ignored', ['C18'], ['C18.R1|inc|inc_num_remote_reset_streams'],
+       'remotely reset pending-accept streams are counted without limit test',
+       [(S + 'recv.rs', '''            if counts.can_inc_num_remote_reset_streams() {
+                counts.inc_num_remote_reset_streams();
+            } else {''', '''            if counts.max_remote_reset_streams() > 0 {
+                counts.inc_num_remote_reset_streams();
+            } else {''')])
+mutant('C18-R2-continuation-limit-stale', ['C18'], ['C18.R2|continuation|setter|set_max_header_list_size'],
+       'set_max_header_list_size no longer recomputes the CONTINUATION limit',
+       [('src/codec/framed_read.rs', '''        self.max_header_list_size = val;
+        // Update max CONTINUATION frames too, since its based on this
+        self.max_continuation_frames = calc_max_continuation_frames(val, self.max_frame_size());''', '''        self.max_header_list_size = val;''')])
+mutant('C18-R2-headermap-append-panics', ['C18'], ['C18.R2|headermap|try_append'],
+       'HeaderBlock::load uses the panicking HeaderMap::append (0.4.15 fix reverted)',
+       [('src/frame/headers.rs', '''                            if let Err(_) = self.fields.try_append(name, value) {
+                                // HeaderMap capacity exceeded — treat as over-size
+                                // so the stream is rejected downstream (RST_STREAM / 431)
+                                // instead of panicking on the 24,577th unique header.
+                                self.is_over_size = true;
+                            }''', '''                            self.fields.append(name, value);''')])
+mutant('C18-R1-budget-charged-for-end-stream', ['C18'], ['C18.R1|budget|not-end-stream'],
+       'final DATA frames are charged against the small-frame budget (0.4.17 fix reverted)',
+       [(S + 'streams.rs', '''            if res.is_ok() && !is_end_stream {''', '''            if res.is_ok() {''')])
+mutant('C19-R1-released-ignores-window-update-queue', ['C19'], ['C19.R1|released|NextWindowUpdate'],
+       'Stream::is_released no longer checks is_pending_window_update: a stream can be freed while linked in that queue',
+       [(S + 'stream.rs', '''            !self.is_pending_accept && !self.is_pending_window_update &&''', '''            !self.is_pending_accept &&''')])
+mutant('C19-R4-index-without-id-check', ['C19'], ['C19.R4|index|index_mut'],
+       'IndexMut for Store no longer verifies the stream id of the slab entry (stale keys alias a new stream)',
+       [(S + 'store.rs', '''            .get_mut(key.index.0 as usize)
+            .filter(|s| s.id == key.stream_id)''', '''            .get_mut(key.index.0 as usize)''')])
+mutant('C19-R5-clone-without-refs', ['C19'], ['C19.R5|refs|inc|clone'],
+       'OpaqueStreamRef::clone does not increment Inner.refs: the client closes while a cloned handle is alive',
+       [(S + 'streams.rs', '''        inner.refs += 1;
+
+        OpaqueStreamRef {''', '''        OpaqueStreamRef {''')])
+mutant('C19-R6-idle-client-never-closes', ['C19'], ['C19.R6'],
+       'the idle client no longer sends GOAWAY when the last reference is gone',
+       [('src/proto/connection.rs', '''        if !self.inner.streams.has_streams_or_other_references() {
+            self.inner.as_dyn().go_away_now(Reason::NO_ERROR);
+        }''', '''''')])
+mutant('C01-R1-end-stream-lost-on-reclaim', ['C01'], ['C01.R1|reclaim'],
+       'a reclaimed DATA tail loses its END_STREAM flag',
+       [(S + 'prioritize.rs', '''            if eos {
+                frame.set_end_stream(true);
+            }
+''', '''            let _ = eos;
+''')])
+mutant('C01-R2-data-requeued-at-back', ['C01'], ['C01.R2|append|pending_send|proto::streams::prioritize::Prioritize::pop_frame'],
+       'a DATA frame that cannot be sent yet is put at the BACK of the stream queue (re-ordering)',
+       [(S + 'prioritize.rs', '''                            if len > 0 && len > stream.send_flow.window_size() {
+                                stream.pending_send.push_front(buffer, frame.into());''', '''                            if len > 0 && len > stream.send_flow.window_size() {
+                                stream.pending_send.push_back(buffer, frame.into());''')])
+mutant('C01-R3-poll-data-drops-trailers', ['C01'], ['C01.R3|reader|proto::streams::recv::Recv::poll_data'],
+       'poll_data pops a trailers event and drops it instead of putting it back',
+       [(S + 'recv.rs', '''                // Frame is trailer
+                stream.pending_recv.push_front(&mut self.buffer, event);
+''', '''                // Frame is trailer
+                let _ = event;
+''')])
